@@ -86,7 +86,7 @@ class Ctl:
         self.events_seen = [0, 0]
 
     def disarm(self):
-        self.crash_at_pw = self.crash_at_sw = None
+        # (crash points stay armed: they are part of the enumeration, not of the fault mix; C07 disarms them itself)
         self.faults_on = False
         self.fault_gen = None
         self.hook_pre = None
